@@ -387,9 +387,14 @@ func init() {
 	register(&Check{
 		ID:    "C07",
 		Level: "fault_enumeration",
-		Rule: "for each seeded ingest history (1-2 indexes, 3-8 batches, flush/rotate steps, swarm knobs) the mutating file-system calls of the first incarnation are numbered 1..M by the disk seam; for crash point k the process _exits right after call k completes, a second process runs the shipped start-up on the same directory, queries, ingests more, flushes and queries again. thorough: every k of every history (exhaustive per history); quick: a stratified sample over the call kinds. distinct = distinct (history, digest of the on-disk tree at the crash); non-trivial = the crash landed after the first flush started",
+		Rule: "for each seeded ingest history (1-2 indexes, 3-8 batches, flush/rotate steps, swarm knobs) the mutating file-system calls of the first incarnation are numbered 1..M by the disk seam; for crash point k the process _exits right after call k completes, a second process runs the shipped start-up on the same directory, queries, ingests more, flushes and queries again. thorough: every k of every history (exhaustive per history); quick: a stratified sample over the call kinds. distinct = distinct (history, digest of the on-disk tree at the crash); non-trivial = the crash landed after the first flush started A second family kills the process at operation boundaries in two or three successive incarnations (some right after a rotation, when the next segment directory exists but is empty) and requires every event whose flush had completed to be found by the last one.",
 		Run:   runC07,
-		Oracle: func(res *RunResult) []Violation { return crashOracle("C07", res) },
+		Oracle: func(res *RunResult) []Violation {
+			if res.Plan.Params["kills"] == true {
+				return killsOracle("C07", res)
+			}
+			return crashOracle("C07", res)
+		},
 		Assumptions: []string{
 			"process-crash model: completed system calls persist (the OS survives); torn writes are not part of C07",
 			"flush completion is attributed to explicit flush/rotate operations (no timer-driven flush in the crash history)",
@@ -448,6 +453,30 @@ func runC07(c *Ctx) {
 	if !c.Quick() {
 		nHist, perHist = 100, 1 << 30
 	}
+	// successive kills at operation boundaries (two or three killed incarnations, then a reader)
+	nKills := 40
+	if !c.Quick() {
+		nKills = 1500
+	}
+	c.Parallel(nKills, 0, func(i int) {
+		r := c.Rng(uint64(1_000_000 + i))
+		p := genSuccessiveKills(r)
+		p.Property = "C07"
+		p.Seed = c.Seed*1_000_003 + uint64(1_000_000+i)
+		res, err := RunPlan(p, genericBetween)
+		if err != nil || harnessTrouble(res) != "" {
+			c.Harness(fmt.Sprintf("kills %d: %v", i, err))
+			return
+		}
+		defer res.Cleanup()
+		vs := c.Check.Oracle(res)
+		c.Account(res, fmt.Sprintf("kills-%d", i), true, nil)
+		c.Probe("successive_kill_histories", 1)
+		c.mu.Lock()
+		c.faultCounts["process_kill"] += len(p.Incs) - 1
+		c.mu.Unlock()
+		c.Report(p, vs)
+	})
 	exhaustiveAll := true
 	type job struct {
 		base *plan.Plan
@@ -611,4 +640,154 @@ func opShape(p *plan.Plan) string {
 		}
 	}
 	return sb.String()
+}
+
+// genSuccessiveKills: the process is killed (no graceful shutdown) at operation boundaries in two or three
+// successive incarnations, each of which ingested and flushed - some right after a rotation, so that the stream's
+// next segment directory exists but holds nothing yet. Every event whose flush or rotation had completed in any
+// earlier incarnation must be found by the last one.
+func genSuccessiveKills(r *rand.Rand) *plan.Plan {
+	p := &plan.Plan{Knobs: swarmKnobs(r), Params: map[string]any{"kills": true}}
+	p.Knobs.LowMem = false
+	nInc := 2 + r.IntN(2)
+	names := []string{"kA", "kB"}[:1+r.IntN(2)]
+	gens := map[string]*EvGen{}
+	for _, ix := range names {
+		gens[ix] = NewEvGen(r, []string{"flat", "sparse", "card"}[r.IntN(3)], ix+"-", 5)
+	}
+	total := map[string]int{}
+	for ii := 0; ii < nInc; ii++ {
+		inc := plan.Incarnation{Boot: "full", SchedSeed: r.Uint64()>>11 | 1}
+		for b := 0; b < 1+r.IntN(3); b++ {
+			ix := names[r.IntN(len(names))]
+			var evs []json.RawMessage
+			for j := 0; j < 3+r.IntN(20); j++ {
+				evs = append(evs, gens[ix].Next(simEpochMs+int64(r.IntN(3_600_000))).Raw)
+			}
+			total[ix] += len(evs)
+			inc.Ops = append(inc.Ops, plan.Op{Kind: "ingest", Index: ix, Events: evs})
+			switch r.IntN(4) {
+			case 0:
+				inc.Ops = append(inc.Ops, plan.Op{Kind: "rotate"}) // the kill may follow a rotation directly
+			case 1:
+				// nothing: this batch may be lost with the kill
+			default:
+				inc.Ops = append(inc.Ops, plan.Op{Kind: "flush"})
+			}
+		}
+		p.Incs = append(p.Incs, inc)
+	}
+	last := plan.Incarnation{Boot: "full", SchedSeed: r.Uint64()>>11 | 1}
+	for _, ix := range names {
+		last.Ops = append(last.Ops, matchAll(ix, total[ix]+100), countQuery(ix))
+	}
+	p.Incs = append(p.Incs, last)
+	return p
+}
+
+// killsOracle: durable = events of an ingest that was followed, in its own incarnation, by a completed flush or
+// rotation; events of later batches of a killed incarnation may or may not have survived.
+func killsOracle(prop string, res *RunResult) []Violation {
+	var vs []Violation
+	durable := map[string]map[string]*Event{}
+	maybe := map[string]bool{}
+	byVID := map[string]*Event{}
+	n := len(res.Plan.Incs)
+	for ii := 0; ii < n-1 && ii < len(res.Incs); ii++ {
+		ir := res.Incs[ii]
+		if ab := ir.Abnormal(); ab != "" {
+			if ab == "harness" || ab == "wall-timeout" {
+				return nil
+			}
+			return []Violation{{Sig: prop + ":kills:node-" + ab + ":" + ir.PanicSite(), Msg: trimTo(ir.Stderr, 1500)}}
+		}
+		pending := map[string][]*Event{}
+		for oi := range res.Plan.Incs[ii].Ops {
+			op := &res.Plan.Incs[ii].Ops[oi]
+			e := ir.Get(fmt.Sprint(oi))
+			if e == nil {
+				break
+			}
+			switch op.Kind {
+			case "ingest":
+				for _, raw := range op.Events {
+					if ev, err := parseEvent(raw); err == nil {
+						byVID[ev.VID] = ev
+						if e.Err == "" {
+							pending[op.Index] = append(pending[op.Index], ev)
+						} else {
+							maybe[ev.VID] = true
+						}
+					}
+				}
+			case "flush", "rotate":
+				for ix, evs := range pending {
+					if durable[ix] == nil {
+						durable[ix] = map[string]*Event{}
+					}
+					for _, ev := range evs {
+						durable[ix][ev.VID] = ev
+					}
+				}
+				pending = map[string][]*Event{}
+			}
+		}
+		for _, evs := range pending {
+			for _, ev := range evs {
+				maybe[ev.VID] = true
+			}
+		}
+	}
+	if len(res.Incs) < n {
+		return vs
+	}
+	ir := res.Incs[n-1]
+	if ab := ir.Abnormal(); ab != "" {
+		if ab == "harness" || ab == "wall-timeout" {
+			return nil
+		}
+		site := ir.PanicSite()
+		if ab == "hang" {
+			site = ir.HangKind()
+		}
+		return []Violation{{Sig: prop + ":kills:recovery-" + ab + ":" + site, Msg: trimTo(ir.Stderr, 1500)}}
+	}
+	for oi := range res.Plan.Incs[n-1].Ops {
+		op := &res.Plan.Incs[n-1].Ops[oi]
+		e := ir.Get(fmt.Sprint(oi))
+		if e == nil || op.Kind != "query" || op.Text != "*" {
+			continue
+		}
+		if e.Err != "" {
+			vs = append(vs, Violation{Sig: prop + ":kills:query-error", Msg: e.Err})
+			continue
+		}
+		q, err := decodeQ(e)
+		if err != nil {
+			continue
+		}
+		seen := map[string]int{}
+		for _, rec := range q.Records {
+			vid, _ := rec["vid"].(string)
+			seen[vid]++
+			if byVID[vid] == nil {
+				vs = append(vs, Violation{Sig: prop + ":kills:event-invented", Msg: fmt.Sprintf("index %s returns unknown event %q", op.Index, vid)})
+			} else if seen[vid] == 2 {
+				vs = append(vs, Violation{Sig: prop + ":kills:event-duplicated", Msg: fmt.Sprintf("index %s returns %s twice", op.Index, vid)})
+			}
+		}
+		lost, first := 0, ""
+		for vid := range durable[op.Index] {
+			if seen[vid] == 0 {
+				lost++
+				if first == "" || vid < first {
+					first = vid
+				}
+			}
+		}
+		if lost > 0 {
+			vs = append(vs, Violation{Sig: prop + ":kills:flushed-event-lost-after-successive-kills", Msg: fmt.Sprintf("index %s: %d of %d events whose flush had completed before a kill are not found after %d kills (first %s)", op.Index, lost, len(durable[op.Index]), n-1, first)})
+		}
+	}
+	return dedupV(vs)
 }
